@@ -265,3 +265,475 @@ def replay_c11(ctx, fl):
 
 
 REPLAYERS["c11"] = replay_c11
+
+
+# ---------------------------------------------------------------------------------------------------------
+# C09 (builder part): what PackageBuilder::build emits is structurally valid, for named scenarios that exist
+# both here (setter calls executed from MIR) and in the native helper (the same calls through the public API)
+# ---------------------------------------------------------------------------------------------------------
+def _scriptlet(text, prog=None, flags=None):
+    return Adt("Scriptlet", "Scriptlet", [string(text), intrinsics3.some(Adt("ScriptletFlags", "bits", [Int(flags, "u32")])) if flags is not None else intrinsics3.NONE,
+                                          intrinsics3.some(VecV([string(p) for p in prog])) if prog else intrinsics3.NONE])
+
+
+def _dep(name, flags=0, version=b""):
+    return Adt("Dependency", "Dependency", [string(name), Adt("DependencyFlags", "bits", [Int(flags, "u32")]), string(version)])
+
+
+SCRIPTLET_SETTERS = ("pre_install_script", "post_install_script", "pre_uninstall_script", "post_uninstall_script", "pre_trans_script", "post_trans_script",
+                     "pre_untrans_script", "post_untrans_script")
+
+
+def scenario(name):
+    """(files, setters, caps) of a named builder scenario; files: (destination, user, group, caps text or None)"""
+    if name == "empty":
+        return [], [], None
+    if name == "files2":
+        return [(b"/d/f0", b"root", b"root", None), (b"/e/f1", b"u", b"g", None)], [], None
+    if name == "scriptlets":
+        return [], [(sn, [_scriptlet(b"echo " + sn.encode()[:3], prog=[b"/bin/sh", b"-e"], flags=1)]) for sn in SCRIPTLET_SETTERS], None
+    if name == "scriptlets_plain":
+        return [], [(sn, [_scriptlet(b"true")]) for sn in SCRIPTLET_SETTERS], None
+    if name == "deps":
+        return [], [(k, [_dep(b"x" + k.encode()[:2], 8, b"1")]) for k in ("requires", "provides", "obsoletes", "conflicts", "recommends", "suggests", "enhances", "supplements")], None
+    if name == "caps_first":
+        return [(b"/d/a", b"root", b"root", b"cap_chown=ep"), (b"/d/b", b"root", b"root", None)], [], None
+    if name == "caps_last":
+        return [(b"/d/a", b"root", b"root", None), (b"/d/b", b"root", b"root", b"cap_chown=ep")], [], None
+    raise KeyError(name)
+
+
+def c09_build(ctx, name):
+    ex = Exec(ctx.funcs, intrinsics.I, max_steps=4000000)
+    ctx.stats = ex.stats
+    files_spec, setters, _ = scenario(name)
+    ctx.bounds = "PackageBuilder scenario %r (%d files, setters: %s), file contents and modification times symbolic; build() and Package::write from MIR" % (name, len(files_spec), ", ".join(n for n, _ in setters) or "none")
+    from harnesses_pkg import validate_header
+    from rpmvals import tag, sigtag
+    import rpmbytes as RB
+
+    def setup(e):
+        return dict(mt=[z3.BitVec("mtime_%d" % i, 32) for i in range(len(files_spec))], c=[z3.BitVec("content_%d" % i, 8) for i in range(len(files_spec))])
+
+    def body(e, inp):
+        comp = ctx.impl_fn("compression", None, "PackageBuilder")
+        build = ctx.impl_fn("build", None, "PackageBuilder")
+        add = ctx.impl_fn("add_data", None, "PackageBuilder")
+        clock_stub(e)
+        b = builder_new(ctx, e)
+        b = e.call_fn(comp, [b, Adt("CompressionWithLevel", "None")])
+        for sn, args in setters:
+            b = e.call_fn(ctx.impl_fn(sn, None, "PackageBuilder"), [b] + list(args))
+        cell = Cell(b)
+        for i, (dest, user, group, caps) in enumerate(files_spec):
+            fo = file_options(dest, user, group)
+            if caps is not None:
+                fo.fields[7] = intrinsics3.some(Adt("FileCaps", "FileCaps", [string(caps)]))
+            r = e.call_fn(add, [Ref(cell), VecV([Int(inp["c"][i], "u8")]), Adt("Timestamp", "Timestamp", [Int(inp["mt"][i], "u32")]), fo])
+            assert r.variant == "Ok"
+        r = e.call_fn(build, [cell.v])
+        return r, (written_bytes(ctx, e, r.fields[0]) if r.variant == "Ok" else None)
+
+    def on_path(e, inp, out):
+        k, v = out
+        if k != "return":
+            ctx.fail("building panics: %s" % (v,), "PackageBuilder::build", kind="c09build", scenario=name)
+            return
+        r, bs = v
+        ctx.cover("package built", r.variant == "Ok")
+        if r.variant != "Ok":
+            ctx.fail("building a valid configuration fails", "PackageBuilder::build", kind="c09build", scenario=name)
+            return
+        pkg = r.fields[0]
+        meta = pkg.fields[0]
+        msgs = []
+        for which, hdr, region in (("signature header", meta.fields[1], sigtag("HEADER_SIGNATURES")), ("main header", meta.fields[2], tag("RPMTAG_HEADERIMMUTABLE"))):
+            validate_header(e, hdr, region, lambda m, which=which: msgs.append(which + ": " + m) and False)
+            if msgs:
+                ctx.fail("the built package violates rpm's structural rules: " + msgs[0], "PackageBuilder::build", kind="c09build", scenario=name)
+                return
+        # rpmlib() features: a header with file capabilities declares rpmlib(FileCaps)
+        hdr = meta.fields[2]
+        tags = {ent.fields[0].conc(): ent for ent in hdr.fields[1].items}
+        if tag("RPMTAG_FILECAPS") in tags:
+            req = tags.get(tag("RPMTAG_REQUIRENAME"))
+            names = [bytes(z3.simplify(b_).as_long() for b_ in x.bytes()) for x in req.fields[1].fields[0].items] if req is not None else []
+            if b"rpmlib(FileCaps)" not in names:
+                ctx.fail("the header carries file capabilities but does not declare rpmlib(FileCaps)", "PackageBuilder::build", kind="c09build", scenario=name)
+                return
+        # alignment of the main header behind the signature header
+        sig_len = 16 + 16 * len(meta.fields[1].fields[1].items) + len(meta.fields[1].fields[2].items)
+        if (96 + sig_len + (-sig_len) % 8) % 8 != 0:
+            ctx.fail("main header not 8-byte aligned", "PackageBuilder::build", kind="c09build", scenario=name)
+
+    ex.run_all(setup, body, on_path)
+
+
+def replay_c09build(ctx, fl):
+    import rpmbytes as RB
+    from rpmvals import tag, sigtag
+    ans = ctx.native.ask("scenario", fl["scenario"])
+    if ans.startswith("panic") or ans.startswith("err"):
+        return True, "real crate: scenario %s -> %s" % (fl["scenario"], ans[:80])
+    b = bytes.fromhex(ans.split()[1])
+    sig = b[96:]
+    why = RB.check_header_bytes(sig, sigtag("HEADER_SIGNATURES"))
+    n, sz = int.from_bytes(sig[8:12], "big"), int.from_bytes(sig[12:16], "big")
+    siglen = 16 + 16 * n + sz
+    hdr = b[96 + siglen + (-siglen) % 8:]
+    why = why or RB.check_header_bytes(hdr, tag("RPMTAG_HEADERIMMUTABLE"))
+    if why is None and b"cap_chown" in hdr and b"rpmlib(FileCaps)" not in hdr:
+        why = "file capabilities without rpmlib(FileCaps)"
+    return why is not None, "real crate: scenario %s built through the public API: %s" % (fl["scenario"], why or "structurally valid")
+
+
+for _sn in ("empty", "files2", "scriptlets", "scriptlets_plain", "deps", "caps_first", "caps_last"):
+    HARNESSES["c09_build_" + _sn] = (lambda n: (lambda ctx: c09_build(ctx, n)))(_sn)
+REPLAYERS["c09"] = (lambda prev: (lambda ctx, fl: replay_c09build(ctx, fl) if fl.get("kind") == "c09build" else prev(ctx, fl)))(REPLAYERS["c09"])
+
+
+# ---------------------------------------------------------------------------------------------------------
+# C06 (partial): what is given to the builder is read back by the matching accessor of the built package
+# (accessors run from MIR on the built Package value; that writing and parsing preserves the headers is C01/C05)
+# ---------------------------------------------------------------------------------------------------------
+STR_FIELDS = [  # (setter or None for constructor arguments, accessor)
+    ("name", "get_name"), ("version", "get_version"), ("license", "get_license"), ("arch", "get_arch"), ("summary", "get_summary"),
+    ("release", "get_release"), ("url", "get_url"), ("vcs", "get_vcs"), ("description", "get_description"), ("vendor", "get_vendor"),
+    ("packager", "get_packager"), ("group", "get_group"), ("build_host", "get_build_host"), ("cookie", "get_cookie"),
+]
+CTOR = ("name", "version", "license", "arch", "summary")
+
+
+def c06_strings(ctx, fields, nchars=1):
+    ex = Exec(ctx.funcs, intrinsics.I, max_steps=4000000)
+    ctx.stats = ex.stats
+    ctx.bounds = ("PackageBuilder::new(..) with the setters %s given strings of %d symbolic ASCII character(s) each (0x20..0x7e), epoch any u32; build() from MIR; each matching accessor of the built package from MIR"
+                  % (", ".join(f for f in fields if f not in CTOR) or "(none)", nchars))
+
+    def setup(e):
+        d = {f: sym_bytes(e, f + "_", nchars, 0x20, 0x7e) for f, _ in STR_FIELDS if f in fields or f in CTOR}
+        d["epoch"] = z3.BitVec("epoch", 32)
+        return d
+
+    def body(e, inp):
+        clock_stub(e)
+        new = ctx.impl_fn("new", None, "PackageBuilder")
+        b = e.call_fn(new, [Str(inp[k]) for k in CTOR])
+        b = e.call_fn(ctx.impl_fn("compression", None, "PackageBuilder"), [b, Adt("CompressionWithLevel", "None")])
+        b = e.call_fn(ctx.impl_fn("epoch", None, "PackageBuilder"), [b, Int(inp["epoch"], "u32")])
+        for f, _ in STR_FIELDS:
+            if f in fields and f not in CTOR:
+                b = e.call_fn(ctx.impl_fn(f, None, "PackageBuilder"), [b, string(inp[f])])
+        r = e.call_fn(ctx.impl_fn("build", None, "PackageBuilder"), [b])
+        if r.variant != "Ok":
+            return r, None
+        meta = r.fields[0].fields[0]
+        got = {}
+        for f, acc in STR_FIELDS:
+            if f in fields or f in CTOR:
+                got[f] = e.call_fn(ctx.impl_fn(acc, None, "PackageMetadata"), [Ref(Cell(meta))])
+        got["epoch"] = e.call_fn(ctx.impl_fn("get_epoch", None, "PackageMetadata"), [Ref(Cell(meta))])
+        return r, got
+
+    def on_path(e, inp, out):
+        k, v = out
+
+        def wit(field):
+            return dict(field=field, fields=list(fields), value=model_bytes(e, inp[field]).hex() if field != "epoch" else "")
+        if k != "return":
+            ctx.fail("building or reading back panics: %s" % (v,), "PackageBuilder::build", kind="c06", **wit("name"))
+            return
+        r, got = v
+        ctx.cover("package built", r.variant == "Ok")
+        if got is None:
+            ctx.fail("building a valid configuration fails", "PackageBuilder::build", kind="c06", **wit("name"))
+            return
+        for f, acc in STR_FIELDS:
+            if f not in got:
+                continue
+            g = got[f]
+            if g.variant != "Ok":
+                ctx.fail("%s() does not return the %s given to the builder (error)" % (acc, f), "PackageMetadata::" + acc, kind="c06", **wit(f))
+                return
+            gb = intrinsics.as_str(e, g.fields[0]).bytes()
+            if len(gb) != len(inp[f]) or e._check(z3.Not(z3.And([x == y for x, y in zip(gb, inp[f])] + [z3.BoolVal(True)]))):
+                ctx.fail("%s() does not return the %s given to the builder" % (acc, f), "PackageMetadata::" + acc, kind="c06", **wit(f))
+                return
+        g = got["epoch"]
+        if g.variant != "Ok" or e._check(g.fields[0].e != inp["epoch"]):
+            ctx.fail("get_epoch() does not return the epoch given to the builder", "PackageMetadata::get_epoch", kind="c06", **wit("epoch"))
+
+    ex.run_all(setup, body, on_path)
+
+
+def replay_c06(ctx, fl):
+    if fl.get("kind") in ("c06s", "c06d", "c06f"):
+        which = {"c06s": "scriptlets_prog" if fl.get("with_prog") else "scriptlets_plain", "c06d": "deps", "c06f": "files"}[fl["kind"]]
+        ans = ctx.native.ask("readback2", which)
+        return not ans.startswith("same"), "real crate: %s set through the public API and read back -> %s" % (which, ans[:160])
+    ans = ctx.native.ask("readback", fl["field"], fl.get("value") or "-")
+    return not ans.startswith("same"), "real crate: builder .%s(%r) then the accessor -> %s" % (fl["field"], bytes.fromhex(fl.get("value") or ""), ans[:100])
+
+
+REPLAYERS["c06"] = replay_c06
+HARNESSES["c06_required"] = lambda ctx: c06_strings(ctx, list(CTOR))
+for _f, _a in STR_FIELDS:
+    if _f not in CTOR:
+        HARNESSES["c06_str_" + _f] = (lambda f: (lambda ctx: c06_strings(ctx, list(CTOR) + [f])))(_f)
+HARNESSES["c06_all_strings"] = lambda ctx: c06_strings(ctx, [f for f, _ in STR_FIELDS])
+
+
+SCRIPT_ACCESSORS = dict(zip(SCRIPTLET_SETTERS, ("get_pre_install_script", "get_post_install_script", "get_pre_uninstall_script", "get_post_uninstall_script",
+                                                "get_pre_trans_script", "get_post_trans_script", "get_pre_untrans_script", "get_post_untrans_script")))
+DEP_SETTERS = ("requires", "provides", "obsoletes", "conflicts", "recommends", "suggests", "enhances", "supplements")
+
+
+def _eq_str(e, a, b):
+    a, b = intrinsics.as_str(e, a).bytes(), intrinsics.as_str(e, b).bytes()
+    return z3.BoolVal(False) if len(a) != len(b) else z3.And([x == y for x, y in zip(a, b)] + [z3.BoolVal(True)])
+
+
+def c06_scriptlets(ctx, which, with_prog):
+    """each scriptlet setter in `which` gets a Scriptlet with symbolic text, symbolic flags and (optionally) a two-word interpreter"""
+    ex = Exec(ctx.funcs, intrinsics.I, max_steps=4000000)
+    ctx.stats = ex.stats
+    ctx.bounds = "scriptlet setters %s: script text of 2 symbolic characters, flags any u32, interpreter %s; build() and the scriptlet accessors from MIR" % (", ".join(which), "of two 1-character words" if with_prog else "absent")
+
+    def setup(e):
+        return {sn: dict(text=sym_bytes(e, sn[:6] + "t", 2, 0x20, 0x7e), flags=z3.BitVec(sn + "_flags", 32), prog=[sym_bytes(e, sn[:6] + "p%d" % i, 1, 0x21, 0x7e) for i in range(2)]) for sn in which}
+
+    def body(e, inp):
+        clock_stub(e)
+        b = builder_new(ctx, e)
+        b = e.call_fn(ctx.impl_fn("compression", None, "PackageBuilder"), [b, Adt("CompressionWithLevel", "None")])
+        for sn in which:
+            sc = Adt("Scriptlet", "Scriptlet", [string(inp[sn]["text"]), intrinsics3.some(Adt("ScriptletFlags", "bits", [Int(inp[sn]["flags"], "u32")])),
+                                               intrinsics3.some(VecV([string(p) for p in inp[sn]["prog"]])) if with_prog else intrinsics3.NONE])
+            b = e.call_fn(ctx.impl_fn(sn, None, "PackageBuilder"), [b, sc])
+        r = e.call_fn(ctx.impl_fn("build", None, "PackageBuilder"), [b])
+        meta = r.fields[0].fields[0]
+        return r, {sn: e.call_fn(ctx.impl_fn(SCRIPT_ACCESSORS[sn], None, "PackageMetadata"), [Ref(Cell(meta))]) for sn in which}
+
+    def on_path(e, inp, out):
+        k, v = out
+        if k != "return":
+            ctx.fail("building or reading back panics: %s" % (v,), "PackageBuilder::build", kind="c06s", which=list(which), with_prog=with_prog)
+            return
+        r, got = v
+        ctx.cover("package built", r.variant == "Ok")
+        for sn in which:
+            g = got[sn]
+            bad = None
+            if g.variant != "Ok":
+                bad = "returns an error"
+            else:
+                sc = g.fields[0]
+                if e._check(z3.Not(_eq_str(e, sc.fields[0], Str(inp[sn]["text"])))):
+                    bad = "returns another script text"
+                elif sc.fields[1].variant != "Some" or e._check(sc.fields[1].fields[0].fields[0].e != inp[sn]["flags"]):
+                    bad = "returns other flags"
+                elif with_prog and (sc.fields[2].variant != "Some" or len(sc.fields[2].fields[0].items) != 2 or
+                                    any(e._check(z3.Not(_eq_str(e, x, Str(y)))) for x, y in zip(sc.fields[2].fields[0].items, inp[sn]["prog"]))):
+                    bad = "returns another interpreter"
+                elif not with_prog and sc.fields[2].variant != "None":
+                    bad = "returns an interpreter although none was given"
+            if bad:
+                ctx.fail("%s() %s than the scriptlet given to %s()" % (SCRIPT_ACCESSORS[sn], bad, sn) if "another" in bad or "other" in bad else "%s() %s for the scriptlet given to %s()" % (SCRIPT_ACCESSORS[sn], bad, sn),
+                         "PackageMetadata::" + SCRIPT_ACCESSORS[sn], kind="c06s", which=list(which), with_prog=with_prog, setter=sn)
+                return
+    ex.run_all(setup, body, on_path)
+
+
+def c06_deps(ctx, which, n=2):
+    ex = Exec(ctx.funcs, intrinsics.I, max_steps=4000000)
+    ctx.stats = ex.stats
+    ctx.bounds = "dependency setters %s called %d times each with name and version of 1 symbolic character and flags any u32; the matching accessors must list them, in order, among their results" % (", ".join(which), n)
+
+    def setup(e):
+        return {k: [dict(name=sym_bytes(e, "%s%dn" % (k[:4], i), 1, 0x21, 0x7e), ver=sym_bytes(e, "%s%dv" % (k[:4], i), 1, 0x21, 0x7e), flags=z3.BitVec("%s%df" % (k, i), 32)) for i in range(n)] for k in which}
+
+    def body(e, inp):
+        clock_stub(e)
+        b = builder_new(ctx, e)
+        b = e.call_fn(ctx.impl_fn("compression", None, "PackageBuilder"), [b, Adt("CompressionWithLevel", "None")])
+        for k in which:
+            for d in inp[k]:
+                b = e.call_fn(ctx.impl_fn(k, None, "PackageBuilder"), [b, Adt("Dependency", "Dependency", [string(d["name"]), Adt("DependencyFlags", "bits", [Int(d["flags"], "u32")]), string(d["ver"])])])
+        r = e.call_fn(ctx.impl_fn("build", None, "PackageBuilder"), [b])
+        meta = r.fields[0].fields[0]
+        return r, {k: e.call_fn(ctx.impl_fn("get_" + k, None, "PackageMetadata"), [Ref(Cell(meta))]) for k in which}
+
+    def on_path(e, inp, out):
+        k_, v = out
+        if k_ != "return":
+            ctx.fail("building or reading back panics: %s" % (v,), "PackageBuilder::build", kind="c06d", which=list(which))
+            return
+        r, got = v
+        ctx.cover("package built", r.variant == "Ok")
+        for k in which:
+            g = got[k]
+            if g.variant != "Ok":
+                ctx.fail("get_%s() returns an error" % k, "PackageMetadata::get_" + k, kind="c06d", which=list(which), setter=k)
+                return
+            items = g.fields[0].items
+            # the user's dependencies, in order, as a subsequence of what the accessor lists (the builder adds its own entries)
+            pos = 0
+            for d in inp[k]:
+                found = None
+                for j in range(pos, len(items)):
+                    it = intrinsics.deref_all(e, items[j])
+                    same = z3.And(_eq_str(e, it.fields[0], Str(d["name"])), it.fields[1].fields[0].e == d["flags"], _eq_str(e, it.fields[2], Str(d["ver"])))
+                    if not e._check(z3.Not(same)):
+                        found = j
+                        break
+                if found is None:
+                    ctx.fail("get_%s() does not list the dependencies given to %s() unchanged and in order" % (k, k), "PackageMetadata::get_" + k, kind="c06d", which=list(which), setter=k)
+                    return
+                pos = found + 1
+    ex.run_all(setup, body, on_path)
+
+
+def c06_files(ctx, nfiles):
+    ex = Exec(ctx.funcs, intrinsics.I, max_steps=4000000)
+    ctx.stats = ex.stats
+    ctx.bounds = ("%d file(s) added with add_data: destination /d/f<i>, permission bits, flags, modification time, one content byte symbolic; owner u<i>:g<i>; source date symbolic; "
+                  "get_file_entries of the built package from MIR: path, mode, owner, group, flags, size, digest = hex(SHA-256(content)) (uninterpreted), mtime = min(mtime, source date)" % nfiles)
+    from intrinsics2 import uf_digest
+    from harnesses_pkg import hexchars
+
+    def setup(e):
+        return dict(sd=z3.BitVec("source_date", 32), f=[dict(perm=z3.BitVec("perm_%d" % i, 16), flags=z3.BitVec("fflags_%d" % i, 32), mt=z3.BitVec("mtime_%d" % i, 32), c=z3.BitVec("content_%d" % i, 8)) for i in range(nfiles)])
+
+    def body(e, inp):
+        for f in inp["f"]:
+            e.solver.add(z3.ULE(f["perm"], 0o7777))
+        clock_stub(e, not_before=inp["sd"])
+        b = builder_new(ctx, e)
+        b = e.call_fn(ctx.impl_fn("compression", None, "PackageBuilder"), [b, Adt("CompressionWithLevel", "None")])
+        b.fields[_field_index("PackageBuilder", "source_date")] = intrinsics3.some(Adt("Timestamp", "Timestamp", [Int(inp["sd"], "u32")]))
+        cell = Cell(b)
+        for i, f in enumerate(inp["f"]):
+            fo = file_options(b"/d/f%d" % i, b"u%d" % i, b"g%d" % i)
+            fo.fields[4] = Adt("FileMode", "Regular", [Int(f["perm"], "u16")])
+            fo.fields[5] = Adt("FileFlags", "bits", [Int(f["flags"], "u32")])
+            r = e.call_fn(ctx.impl_fn("add_data", None, "PackageBuilder"), [Ref(cell), VecV([Int(f["c"], "u8")]), Adt("Timestamp", "Timestamp", [Int(f["mt"], "u32")]), fo])
+            assert r.variant == "Ok"
+        r = e.call_fn(ctx.impl_fn("build", None, "PackageBuilder"), [cell.v])
+        meta = r.fields[0].fields[0]
+        return r, e.call_fn(ctx.impl_fn("get_file_entries", None, "PackageMetadata"), [Ref(Cell(meta))])
+
+    def on_path(e, inp, out):
+        k_, v = out
+        if k_ != "return":
+            ctx.fail("building or reading back panics: %s" % (v,), "PackageBuilder::build", kind="c06f", nfiles=nfiles)
+            return
+        r, fes = v
+        ctx.cover("package built", r.variant == "Ok")
+        if fes.variant != "Ok" or len(fes.fields[0].items) != nfiles:
+            ctx.fail("get_file_entries() does not list the files given to the builder", "PackageMetadata::get_file_entries", kind="c06f", nfiles=nfiles)
+            return
+        for i, (f, fe) in enumerate(zip(inp["f"], fes.fields[0].items)):
+            fe = intrinsics.deref_all(e, fe)
+            path, mode, own, mtime, size, flags, digest = fe.fields[0], fe.fields[1], fe.fields[2], fe.fields[3], fe.fields[4], fe.fields[5], fe.fields[6]
+            want_mt = z3.If(z3.ULT(inp["sd"], f["mt"]), inp["sd"], f["mt"])
+            checks = [
+                ("path", _eq_str(e, Str(intrinsics3._path_bytes(e, path)), Str.lit(b"/d/f%d" % i))),
+                ("mode", z3.BoolVal(mode.variant == "Regular") if mode.variant != "Regular" else mode.fields[0].e == f["perm"]),
+                ("owner", z3.And(_eq_str(e, own.fields[0], Str.lit(b"u%d" % i)), _eq_str(e, own.fields[1], Str.lit(b"g%d" % i)))),
+                ("modification time (clamped to the source date)", mtime.fields[0].e == want_mt),
+                ("size", size.e == 1),
+                ("flags", flags.fields[0].e == f["flags"]),
+            ]
+            if digest.variant == "Some":
+                dv = digest.fields[0]          # FileDigest { digest: String, algo: DigestAlgorithm }
+                algo_ok = getattr(dv.fields[1], "variant", "") == "Sha2_256"
+                checks.append(("content digest", _eq_str(e, dv.fields[0], Str(hexchars(uf_digest("sha256", [f["c"]])))) if algo_ok else z3.BoolVal(False)))
+            else:
+                checks.append(("content digest", z3.BoolVal(False)))
+            for what, cond in checks:
+                if e._check(z3.Not(cond)):
+                    ctx.fail("get_file_entries() does not return the %s of the file given to the builder" % what, "PackageMetadata::get_file_entries", kind="c06f", nfiles=nfiles, field=what)
+                    return
+    ex.run_all(setup, body, on_path)
+
+
+HARNESSES["c06_scriptlets_prog"] = lambda ctx: c06_scriptlets(ctx, SCRIPTLET_SETTERS, True)
+HARNESSES["c06_scriptlets_plain"] = lambda ctx: c06_scriptlets(ctx, SCRIPTLET_SETTERS, False)
+HARNESSES["c06_deps_all"] = lambda ctx: c06_deps(ctx, DEP_SETTERS, 2)
+HARNESSES["c06_files_1"] = lambda ctx: c06_files(ctx, 1)
+HARNESSES["c06_files_2"] = lambda ctx: c06_files(ctx, 2)
+
+
+# ---------------------------------------------------------------------------------------------------------
+# C07 (partial): Package::files() of a package built by this library yields every file's exact content under its own metadata
+# ---------------------------------------------------------------------------------------------------------
+def c07_roundtrip(ctx, sizes):
+    ex = Exec(ctx.funcs, intrinsics.I, max_steps=8000000)
+    ctx.stats = ex.stats
+    ctx.bounds = ("files of %s symbolic content bytes at /d/f<i> (in that order of insertion: reversed), no compression: PackageBuilder .. build() then Package::files() and FileIterator::next, all from MIR "
+                  "(cpio writer and cpio reader included)" % "/".join(map(str, sizes)))
+    from intrinsics2 import uf_digest
+    from harnesses_pkg import hexchars
+
+    def setup(e):
+        return [sym_bytes(e, "c%d_" % i, n, 0, 255) for i, n in enumerate(sizes)]
+
+    def body(e, inp):
+        clock_stub(e)
+        b = builder_new(ctx, e)
+        b = e.call_fn(ctx.impl_fn("compression", None, "PackageBuilder"), [b, Adt("CompressionWithLevel", "None")])
+        cell = Cell(b)
+        for i in reversed(range(len(sizes))):
+            r = e.call_fn(ctx.impl_fn("add_data", None, "PackageBuilder"), [Ref(cell), VecV([Int(x, "u8") for x in inp[i]]), Adt("Timestamp", "Timestamp", [Int(5, "u32")]), file_options(b"/d/f%d" % i)])
+            assert r.variant == "Ok"
+        r = e.call_fn(ctx.impl_fn("build", None, "PackageBuilder"), [cell.v])
+        pkg = r.fields[0]
+        it = e.call_fn(ctx.impl_fn("files", None, "Package"), [Ref(Cell(pkg))])
+        if it.variant != "Ok":
+            return r, it, []
+        itc = Cell(it.fields[0])
+        nx = ctx.find_fn(r"package::<impl at [^>]*>::next")
+        outs = []
+        for _ in range(len(sizes) + 2):
+            x = e.call_fn(nx, [Ref(itc)])
+            if x.variant == "None":
+                break
+            outs.append(x.fields[0])
+        return r, it, outs
+
+    def on_path(e, inp, out):
+        k, v = out
+        if k != "return":
+            ctx.fail("building or iterating panics: %s" % (v,), "Package::files", kind="c07", sizes=list(sizes))
+            return
+        r, it, outs = v
+        ctx.cover("package built", r.variant == "Ok")
+        if it.variant != "Ok" or len(outs) != len(sizes) or any(o.variant != "Ok" for o in outs):
+            ctx.fail("iterating the payload of a freshly built package fails or yields %d entries for %d files" % (len(outs), len(sizes)), "Package::files", kind="c07", sizes=list(sizes))
+            return
+        for i, o in enumerate(outs):                      # ordered by path: /d/f0, /d/f1, ...
+            rf = o.fields[0]
+            fe, content = rf.fields[0], as_bytes(e, rf.fields[1])
+            bad = None
+            if len(content) != sizes[i] or (content and e._check(z3.Not(z3.And([x == y for x, y in zip(content, inp[i])])))):
+                bad = "content"
+            elif e._check(z3.Not(_eq_str(e, Str(intrinsics3._path_bytes(e, fe.fields[0])), Str.lit(b"/d/f%d" % i)))):
+                bad = "path (order by path)"
+            elif e._check(fe.fields[4].e != sizes[i]):
+                bad = "recorded size"
+            elif fe.fields[6].variant != "Some" or e._check(z3.Not(_eq_str(e, fe.fields[6].fields[0].fields[0], Str(hexchars(uf_digest("sha256", list(inp[i]))))))):
+                bad = "recorded digest"
+            if bad:
+                ctx.fail("payload iteration pairs entry %d with the wrong %s" % (i, bad), "Package::files", kind="c07", sizes=list(sizes))
+                return
+    ex.run_all(setup, body, on_path)
+
+
+def replay_c07(ctx, fl):
+    ans = ctx.native.ask("files_rt", ",".join(str(x) for x in fl.get("sizes", [])))
+    return not ans.startswith("same"), "real crate: files of those sizes built and iterated with Package::files() -> " + ans[:120]
+
+
+REPLAYERS["c07"] = replay_c07
+for _sz in ((0,), (1,), (3,), (4,), (5,), (2, 3), (4, 0), (1, 2, 3)):
+    HARNESSES["c07_rt_" + "_".join(map(str, _sz))] = (lambda sz: (lambda ctx: c07_roundtrip(ctx, sz)))(_sz)
